@@ -10,6 +10,7 @@ SPECS = [
     ("mtsp", "MTSP"), ("mdcpdp", "MDCPDP"), ("mdcpdp", "MDCPDPGen"), ("mdcpdp", "MDCPDPHet"),
     ("smtwtp", "SMTWTP"), ("ffsp", "FFSP"), ("ffsp", "FFSPNoFlatten"),
     ("flp", "FLP"), ("flp", "FLPFull"), ("mcp", "MCP"), ("mcp", "MCPFull"), ("dpp", "DPP"), ("dpp", "MDPP"),
+    ("dpp", "DPPGen"), ("dpp", "MDPPGen"),
 ]
 
 ALL = []
